@@ -18,6 +18,7 @@ OPTS = {"loop_bound": 2}
 CALLS = 3
 ASSUMES = ["C15 well-formed pre-state", "C17 prefix algebra (relation oracle)", "pt/models.py std model"]
 LEVEL_TEXT = __doc__
+DEEPER = False     # thorough tier: the three-call cover programs exceed the path budget with one more unrolling
 
 SPM = {
     "PrefixMap::get_spm": "Some((&{T}[{k}].prefix, &{T}[{k}].value.some))",
